@@ -172,6 +172,8 @@ class World:
         # swarm knob: clients created with debug=True (their prints are swallowed)
         with ch.abs_scope("world"):
             self.debug = ch.wl.flag("debug", 1, 6)
+            # ... and clients given their port as a decimal string (socket.create_connection accepts either)
+            self.port_as_str = ch.wl.flag("port_as_str", 1, 8)
         self.clients = []
         self.parse_breaches = []
 
@@ -242,6 +244,8 @@ class World:
 
     # -- clients ----------------------------------------------------------
     def new_client(self, host="sieve.example", port=4190):
+        if self.port_as_str:
+            port = str(port)
         c = self.client_cls(host, port, debug=self.debug) if self.debug else self.client_cls(host, port)
         self.clients.append(c)
         return c
